@@ -11,18 +11,18 @@ theorem accepted_append (a b : List Call) : accepted (a ++ b) = accepted a ++ ac
 theorem sumCnt_append (a b : List Entry) : sumCnt (a ++ b) = sumCnt a + sumCnt b := by
   simp [sumCnt]
 
-theorem drain_spec (kern : Nat → Nat → Outcome) (hk : KernOK kern) (gso : Bool) (chunk : List Entry) (done k : Nat) :
-    let d := drain kern gso chunk done k
+theorem drain_spec (kern : Nat → Nat → Outcome) (hk : KernOK kern) (gso : Bool) (chunk : List Entry) (ctl : Ctl) (done k : Nat) :
+    let d := drain kern gso chunk ctl done k
     d.stop ≠ .overrun ∧ d.written = sumCnt (accepted d.calls) ∧
     (∀ c ∈ d.calls, ∃ j, j < chunk.length ∧ c.ents = chunk.drop j ∧ c.done = j) ∧
     accepted d.calls <+ chunk.drop done ∧
     (∀ i, d.stop = .replay i → ∃ j, ∃ h : j < chunk.length, done ≤ j ∧ i = chunk[j].start ∧ 2 ≤ chunk[j].cnt ∧
         accepted d.calls <+ (chunk.drop done).take (j - done)) := by
-  fun_induction drain kern gso chunk done k with
+  fun_induction drain kern gso chunk ctl done k with
   | case1 done k h n o call hpos hover =>
     exfalso; have := hk k n; simp only [o, n] at *; omega
   | case2 done k h n o call hpos hover s r ih =>
-    rw [show drain kern gso chunk (done + s) (k + 1) = r from rfl] at ih
+    rw [show drain kern gso chunk ctl (done + s) (k + 1) = r from rfl] at ih
     obtain ⟨i1, i2, i3, i4, i5⟩ := ih
     have hacc : call.accepted = (chunk.drop done).take s := by
       simp only [Call.accepted, call]; rw [if_pos hpos]
@@ -59,7 +59,7 @@ theorem drain_spec (kern : Nat → Nat → Outcome) (hk : KernOK kern) (gso : Bo
       simp only [Stop.replay.injEq] at hi
       exact ⟨done, h, Nat.le_refl _, hi.symm, hrep.2.1, by simp [accepted, Call.accepted, call, hpos]⟩
   | case5 done k h n o call hpos herr hrep r ih =>
-    rw [show drain kern gso chunk (done + 1) (k + 1) = r from rfl] at ih
+    rw [show drain kern gso chunk ctl (done + 1) (k + 1) = r from rfl] at ih
     obtain ⟨i1, i2, i3, i4, i5⟩ := ih
     have hacc : call.accepted = [] := by simp [Call.accepted, call, hpos]
     refine ⟨i1, ?_, ?_, ?_, ?_⟩
